@@ -414,6 +414,9 @@ class _ScopeContext:
                     while (sent := (yield f)) is not None:
                         subrecurse = sent
 
+                    if not (a := f.a):  # removed by the player during the yield (if replaced then `f` has a new AST)
+                        continue
+
                 if subrecurse is True:  # user did send(True) so walk unconditionally
                     yield from f.walk(all, self_=False, back=back)  # if the user did send(True) (subrecurse=True) then we want to recurse uncondintionally (scope=False), otherwise subrecurse=1 and continue walking with scope=True
 
@@ -443,7 +446,10 @@ class _ScopeContext:
                     while (sent := (yield f)) is not None:
                         subrecurse = sent
 
-                if subrecurse and check_all_param(f := a.ctx.f):  # truly pedantic, but maybe the user really really really wants that .ctx?
+                    if not (a := f.a):  # removed by the player during the yield (if replaced then `f` has a new AST)
+                        continue
+
+                if subrecurse and (ctx := getattr(a, 'ctx', None)) and check_all_param(f := ctx.f):  # truly pedantic, but maybe the user really really really wants that .ctx?
                     while (yield f) is not None:  # eat all the user's send()s
                         pass
 
